@@ -90,7 +90,18 @@ def parse_junit(so, ncases):
                 cases[k]["failed"].append([tc.get("name"), mm.group(1), [x.strip() for x in mm.group(2).split(",") if x.strip()]])
         elif tc.get("status") == "pass":
             cases[k]["passed"].append([tc.get("name"), None])
+    # the counters of the report: <testsuites tests= failures=>, <testsuite failures=>
+    global LAST_JUNIT_COUNTS
+    try:
+        LAST_JUNIT_COUNTS = {"tests": int(root.get("tests", "-1")), "failures": int(root.get("failures", "-1")),
+                             "suite_failures": sum(int(ts.get("failures", "0")) for ts in root.iter("testsuite")),
+                             "testcases": sum(1 for _ in root.iter("testcase")), "failure_elements": sum(1 for _ in root.iter("failure"))}
+    except ValueError:
+        LAST_JUNIT_COUNTS = {"tests": -1, "failures": -1, "suite_failures": -1, "testcases": 0, "failure_elements": 0}
     return cases
+
+
+LAST_JUNIT_COUNTS = None
 
 
 def run_test_cmd(wd, i, c, cases, layout, fmt, events=None):
@@ -124,6 +135,7 @@ def run_test_cmd(wd, i, c, cases, layout, fmt, events=None):
                 obs["wf"] = False
             else:
                 obs["cases"] = cs
+                obs["counts"] = LAST_JUNIT_COUNTS
     except (ValueError, KeyError, TypeError):
         obs["wf"] = False
     return obs, args, so, se
